@@ -48,6 +48,11 @@ func ServeWorker(t *testing.T, plans []nrun.Plan) {
 			return res
 		}
 		res := run()
+		if generated[job.Scenario] {
+			// every member of a generated family is a cost-0 job: re-running
+			// each of them to vote on a schedule would multiply the family
+			return res
+		}
 		if job.Cost >= budget[job.Scenario] || res.Diverged || len(res.Viol) > 0 || res.Crash != "" {
 			return res
 		}
@@ -92,6 +97,9 @@ func ServeWorker(t *testing.T, plans []nrun.Plan) {
 		return seen[best]
 	})
 }
+
+// generated lists the scenarios that are generated families (x.ChooseOf).
+var generated = map[string]bool{"TG": true}
 
 func sameSchedule(a, b explore.Result) bool {
 	if a.Diverged || b.Diverged || len(a.Points) != len(b.Points) {
